@@ -3,4 +3,5 @@ CONSTANTS
   Dims = {2, 3}
   Emit = TRUE
 INVARIANT Duality
+INVARIANT Homogeneous
 INVARIANT EmitOK
